@@ -358,6 +358,40 @@ class Ref:
             self.y = y
         self.amax = float(np.abs(self.Ad).max()) if self.Ad.size else 0.0
 
+    def pencil(self):
+        """Constrained eigenvalues of the symmetric-definite pencil and the accuracy the dense model itself
+        can deliver for the penalised / enforced pencils (None when the clause is not decidable by it).
+
+        Oracle pitfall (found in the thorough tier on the mass matrix of ElementQuadP(5), cond(M) = 2e6):
+        the dense eigensolver applied to the *penalised* pencil loses about eps*P/lambda_min(M) in absolute
+        terms, the penalty itself perturbs the bounded eigenvalues by at most about
+        (|A| + lambda|M|)^2/(P*lambda_min(M)).  Only a penalty inside the window where both are below
+        1e-4*max|lambda| can be judged with a 1e-3 tolerance; outside it the case is dropped and counted."""
+        if hasattr(self, "_pencil"):
+            return self._pencil
+        self._pencil = None
+        I = self.I
+        if not (self.sym and I.size and self.Md is not None):
+            return None
+        MII = self.Md[np.ix_(I, I)]
+        try:
+            lam_full = float(np.linalg.eigvalsh(self.Md + self.Md.T).min()) / 2
+            lamII = float(np.linalg.eigvalsh(MII + MII.T).min()) / 2
+            if lamII <= 0:
+                return None
+            wc = np.sort(sl.eigh(self.AII, MII, eigvals_only=True))
+        except Exception:
+            return None
+        sc = max(float(np.abs(wc).max()), 1e-300)
+        nA = float(np.abs(self.Ad).sum(1).max())
+        nM = float(np.abs(self.Md).sum(1).max())
+        condM = nM / lamII
+        lam_for_pen = lam_full if lam_full > 0 else lamII      # M may have empty constrained rows
+        P_lo = (nA + sc * nM) ** 2 / (lam_for_pen * 1e-4 * sc)
+        P_hi = 1e-4 * sc * lam_for_pen / 1e-15
+        self._pencil = dict(wc=wc, sc=sc, condM=condM, P_lo=P_lo, P_hi=P_hi, nM=nM, spd_full=lam_full > 0)
+        return self._pencil
+
     def residual_ok(self, y, rows, b=None):
         """(A y - b)[rows] relative to |A||y| + |b| on those rows."""
         b = self.b if b is None else b
@@ -649,15 +683,19 @@ def check_enforce(ctx, A, b, x, split, ref, tag, diag=None, overwrite=False, y_c
         Med = np.asarray(be.toarray())
         okM = ctx.check("enforce-mass-rows", same(Med[D], np.zeros((D.size, n))) and same(Med[I], ref.Md[I]),
                         mech=mk("mass-rows", "M"), Deff=split.Deff(), **tag)
-        if ref.sym and ref.I.size and ref.cond <= CONDMAX:
-            wc = np.sort(sl.eigh(ref.AII, ref.Md[np.ix_(I, I)], eigvals_only=True))
+        pc = ref.pencil()
+        if pc is not None and pc["condM"] <= 1e9:
+            wc = pc["wc"]
             we = finite_pencil_eigs(Aed, Med)
             good = we.size == wc.size
             if good:
                 we = np.sort(we.real)
-                good = bool(np.abs(we - wc).max() <= 1e-7 * max(np.abs(wc).max(), 1e-300)) if wc.size else True
+                # the unsymmetric dense solver (QZ) is accurate to about eps*cond(M) relative to max|lambda|
+                good = bool(np.abs(we - wc).max() <= max(1e-7, 1e-12 * pc["condM"]) * pc["sc"]) if wc.size else True
             ctx.check("enforce-pencil-eigenvalues", good, mech=mk("pencil", "both"), finite=int(we.size),
-                      expected=int(wc.size), **tag)
+                      expected=int(wc.size), condM=pc["condM"], **tag)
+        elif ref.sym:
+            ctx.drop("pencil-clause-skipped:dense-model-not-accurate-enough")
     elif ref.b is not None:
         rhs_kind = "vector"
         be = np.asarray(be)
@@ -726,20 +764,21 @@ def check_penalize(ctx, A, b, x, split, ref, tag, epsilon=None, overwrite=False)
     if ref.Md is not None:
         rhs_kind = "matrix"
         Mpd = np.asarray(bp.toarray())
-        # (oracle pitfall: the dense eigensolver itself loses ~1e-16*P/|A| relative accuracy, so the
-        # clause is evaluated only for 1e6 <= P/|A| <= 1e11, where a 1e-3 tolerance separates the
-        # O(|A|/P) penalty error and the rounding of the model from any real disagreement)
-        if ref.sym and I.size and ref.cond <= CONDMAX and ref.amax > 0 and 1e6 * ref.amax <= P <= 1e11 * ref.amax:
-            wc = np.sort(sl.eigh(ref.AII, ref.Md[np.ix_(I, I)], eigvals_only=True))
+        pc = ref.pencil()
+        if pc is not None and pc["P_lo"] <= P <= pc["P_hi"] and float(np.abs(pen).max()) <= pc["P_hi"]:
+            wc, sc = pc["wc"], pc["sc"]
             wp = finite_pencil_eigs(Apd, Mpd)
-            sc = max(float(np.abs(wc).max()), 1e-300)
             # eigenvalues that stay bounded as P grows converge to the constrained ones at rate O(1/P)
-            near = np.sort(wp[np.abs(wp) < 1e-3 * P].real)
+            # (the |D| penalty eigenvalues are of size P/|M|, the bounded ones at most max|lambda|)
+            near = np.sort(wp[np.abs(wp) < max(2 * sc, 1e-2 * P / pc["nM"])].real)
             good = near.size == wc.size and bool(np.abs(near - wc).max() <= 1e-3 * sc)
             ctx.check("overwrite-result-correct" if overwrite else "penalize-pencil-eigenvalues", good,
-                      mech="penalize:pencil", bounded=int(near.size), expected=int(wc.size), P=P, **tag)
+                      mech="penalize:pencil", bounded=int(near.size), expected=int(wc.size), P=P,
+                      window=[pc["P_lo"], pc["P_hi"]], **tag)
             if good:
                 nt(ctx, "penalize", A, split, ref, rhs_kind, overwrite)
+        elif ref.sym:
+            ctx.drop("pencil-clause-skipped:penalty-outside-window-decidable-by-dense-model")
     elif ref.b is not None:
         rhs_kind = "vector"
         bp = np.asarray(bp)
@@ -830,6 +869,13 @@ def readonly_pass(ctx, op, A, b, x, split, tag, first, **kw):
 
 
 # ---------------------------------------------------------------- all clauses
+def pencil_epsilon(ref):
+    pc = ref.pencil()
+    if pc is None or not (pc["P_lo"] * 4 <= pc["P_hi"]):
+        return 2.0 ** -int(np.round(np.log2(1e8 * max(ref.amax, 1e-300))))
+    return 2.0 ** -int(np.round(0.5 * (np.log2(pc["P_lo"]) + np.log2(pc["P_hi"]))))
+
+
 def run_linear_ops(ctx, A, b, x, splits, tag, rot=0, sym=False):
     """All operations of the property on one system under each of the given spellings of one split."""
     ys = []
@@ -848,8 +894,8 @@ def run_linear_ops(ctx, A, b, x, splits, tag, rot=0, sym=False):
         readonly_pass(ctx, "enforce", A, b, x, split, t, e1, **({"diag": diag} if diag is not None else {}))
         check_enforce(ctx, A, b, x, split, ref, t, diag=[None, 0.5][r % 2], overwrite=True)
         if sp.issparse(b) and ref.amax > 0:
-            e0 = 2.0 ** -int(np.round(np.log2(1e8 * ref.amax)))      # keeps the dense pencil model accurate
-            eps, eps2 = [e0, None, e0 / 8, e0 * 8][r % 4], [e0, e0 / 4][r % 2]
+            e0 = pencil_epsilon(ref)      # a penalty the dense pencil model can judge (see Ref.pencil)
+            eps, eps2 = [e0, None, e0 / 2, e0 * 2][r % 4], [e0, e0 / 2][r % 2]
         else:
             eps, eps2 = [None, 2.0 ** -34, None, 2.0 ** -40][r % 4], [2.0 ** -36, None][r % 2]
         p1 = check_penalize(ctx, A, b, x, split, ref, t, epsilon=eps, overwrite=False)
@@ -1333,8 +1379,7 @@ def fam_fem_views(ctx, k):
                 ctx.check("eigen-expanded-satisfies-kept-equations", np.isfinite(err) and err <= 1e-6 * scale,
                           mech="condense:eigen-residual-arpack", err=err, scale=float(scale), **tag)
             check_enforce(ctx, K, Mfull, None, sv, ref, tag)
-            check_penalize(ctx, K, Mfull, None, sv, ref, tag,
-                           epsilon=2.0 ** -int(np.round(np.log2(1e8 * ref.amax))))
+            check_penalize(ctx, K, Mfull, None, sv, ref, tag, epsilon=pencil_epsilon(ref))
 
 
 # ------------------------------------------------------- other sparse formats
